@@ -112,7 +112,13 @@ def handle (op : String) (req : Json) : Except String Json :=
       | .error _ => pure none)
     let code ← req.getObjValAs? Nat "code"
     let tb ← req.getObjValAs? Bool "traceback"
-    pure (Json.mkObj [("holds", specExit usage first ⟨code, tb⟩), ("documented", isDocumentedCode code)])
+    -- a multi-file project of a known class: the documented status of the class
+    let project : Option ProjectClass := match req.getObjValAs? String "project" with
+      | .ok "valid" => some .valid | .ok "cycle" => some .cycle | .ok "missing" => some .missingImport | _ => none
+    let pj : Json := match project with
+      | some c => Json.mkObj [("holds", specProject c ⟨code, tb⟩), ("code", c.code)]
+      | none => Json.null
+    pure (Json.mkObj [("holds", specExit usage first ⟨code, tb⟩), ("documented", isDocumentedCode code), ("project", pj)])
   | _ => throw s!"unknown op {op}"
 
 end Pydjinni.Drv.C19
